@@ -93,6 +93,18 @@ Theorem skip_exact : forall bs : list byte,
                 end.
 Proof. exact skip_leb_exact. Qed.
 
+Example uleb16_ex : read_uleb128_u16 [xff; xff; x03; xaa] = Ok (65535, [xaa]) /\
+  read_uleb128_u16 [xff; xff; x04] = Err EBadUnsignedLeb128 /\
+  read_uleb128_u16 [x80; x80; x80; x00] = Err EBadUnsignedLeb128 /\
+  read_uleb128_u16 [x80; x80] = Err EUnexpectedEof.
+Proof. vm_compute. repeat split; reflexivity. Qed.
+Example uleb32_ex : read_uleb128_u32 true [xff; xff; xff; xff; x0f] = Ok (4294967295, []) /\
+  read_uleb128_u32 true [x80; x80; x80; x80; x10] = Err EBadUnsignedLeb128.
+Proof. vm_compute. split; reflexivity. Qed.
+Example skip_ex : skip_leb [xff; xff; xff; xff; xff; xff; xff; xff; xff; xff; xff; x7f; x01] = Ok (tt, [x01]) /\
+  skip_leb [x80] = Err EUnexpectedEof.
+Proof. vm_compute. split; reflexivity. Qed.
+
 (* 4. Writers: for every u64 / i64 value the encoder returns (never indexes past its 10-byte array)
    a terminated encoding of the value whose length is what *_size reports, between 1 and 10, and both
    readers return exactly the value and leave exactly the following bytes. *)
@@ -124,7 +136,7 @@ Proof. vm_compute. repeat split; reflexivity. Qed.
    text: Σ bs[i]·256^i (little endian) and Σ bs[i]·256^(|bs|-1-i) (big endian). *)
 Theorem le_be_positional : forall bs : list byte,
   le_val bs = le_sum bs /\ be_val bs = be_sum bs.
-Proof. intros bs. split; [apply le_val_is_sum|apply be_val_is_sum]. Qed.
+Proof. exact le_be_positional_l. Qed.
 
 (* read_u8/u16/u32/u64/u128 are `read_un 1/2/4/8/16`; the statement holds for every width n:
    fewer than n bytes -> UnexpectedEof, else the positional value of the first n bytes and the rest. *)
@@ -136,10 +148,7 @@ Proof. exact read_un_exact. Qed.
 
 Theorem fixed_le_be_app : forall (n : nat) (be : bool) (h t : list byte), length h = n ->
   read_un n be (h ++ t) = Ok (val_sum be h, t) /\ val_sum be h < 256 ^ N.of_nat n.
-Proof.
-  intros n be h t H. split; [apply read_un_app; exact H|].
-  rewrite <- H. apply (val_sum_lt be h).
-Qed.
+Proof. exact read_un_app_lt. Qed.
 
 Theorem fixed_eof_iff : forall (n : nat) (be : bool) (bs : list byte),
   read_un n be bs = Err EUnexpectedEof <-> (length bs < n)%nat.
@@ -152,11 +161,7 @@ Theorem fixed_write_read : forall (n : nat) (be : bool) (v : N) (r : list byte),
   length (enc_un n be v) = n /\
   read_un n be (enc_un n be v ++ r) = Ok (v mod 256 ^ N.of_nat n, r) /\
   (v < 256 ^ N.of_nat n -> read_un n be (enc_un n be v ++ r) = Ok (v, r)).
-Proof.
-  intros n be v r. split; [apply enc_un_length|]. split.
-  - apply read_un_enc_un.
-  - apply read_un_enc_un_small.
-Qed.
+Proof. exact fixed_write_read_l. Qed.
 
 Theorem fixed_read_write : forall (be : bool) (bs : list byte),
   enc_un (length bs) be (val_sum be bs) = bs.
@@ -176,7 +181,7 @@ Theorem read_uint_exact : forall (n : nat) (be : bool) (bs : list byte),
   if (8 <? n)%nat then Panic
   else if (length bs <? n)%nat then Err EUnexpectedEof
   else Ok (val_sum be (firstn n bs), skipn n bs).
-Proof. intros n be bs. rewrite PrimProofs.read_uint_exact, read_un_exact. reflexivity. Qed.
+Proof. exact read_uint_full. Qed.
 
 Example fixed_ex1 : read_un 4 false [x78; x56; x34; x12; xaa] = Ok (305419896, [xaa]) /\
                     read_un 4 true [x12; x34; x56; x78; xaa] = Ok (305419896, [xaa]).
@@ -194,17 +199,13 @@ Theorem sized_reads : forall (size : N) (be : bool) (bs : list byte),
     (if size_ok size then read_un (N.to_nat size) be bs else Err EUnsupportedAddressSize) /\
   read_sized_offset size be bs =
     (if size_ok size then read_un (N.to_nat size) be bs else Err EUnsupportedOffsetSize).
-Proof. intros. split; [apply read_address_exact|apply read_sized_offset_exact]. Qed.
+Proof. exact sized_reads_l. Qed.
 
 Theorem sized_reads_ok : forall (size : N) (be : bool) (bs : list byte) (v : N) (rest : list byte),
   read_address size be bs = Ok (v, rest) \/ read_sized_offset size be bs = Ok (v, rest) ->
   (size = 1 \/ size = 2 \/ size = 4 \/ size = 8) /\
   exists h, bs = h ++ rest /\ N.of_nat (length h) = size /\ v = val_sum be h /\ v < 2 ^ (8 * size).
-Proof.
-  intros size be bs v rest [H|H].
-  - destruct (read_address_ok _ _ _ _ _ H) as (E & Hx). split; [apply size_ok_cases; exact E|exact Hx].
-  - destruct (read_sized_offset_ok _ _ _ _ _ H) as (E & Hx). split; [apply size_ok_cases; exact E|exact Hx].
-Qed.
+Proof. exact sized_reads_ok_l. Qed.
 
 Theorem address_size_exact : forall bs : list byte,
   read_address_size bs =
@@ -297,7 +298,7 @@ Proof. exact write_sdata_ok. Qed.
 
 Theorem in_signed_iff : forall (bits : N) (v : Z),
   in_signed bits v = true <-> (- Z.of_N (2 ^ (bits - 1)) <= v < Z.of_N (2 ^ (bits - 1)))%Z.
-Proof. intros bits v. unfold in_signed. rewrite andb_true_iff, Z.leb_le, Z.ltb_lt. reflexivity. Qed.
+Proof. exact in_signed_iff_l. Qed.
 
 Example write_data_ex :
   write_udata true 256 1 = Err WValueTooLarge /\ write_udata true 255 1 = Ok [xff] /\
